@@ -399,14 +399,20 @@ def eval_monad_shape(a, backend):
     def _normalize_backend_array(x):
         return backend.to_numpy(x) if backend.is_backend_array(x) else x
 
-    def _a(x): # use numpy's natural shape by replacing all strings with arrays
+    def _shape(x): # strings count as the innermost dimension; ragged levels end the shape
         x = _normalize_backend_array(x)
-        return bknp.asarray([
-            bknp.empty(len(y)) if isinstance(y, str) else (_a(y) if is_list(y) else _normalize_backend_array(y))
-            for y in x
-        ])
+        if isinstance(x, str):
+            return [] if isinstance(x, (KGSym, KGChar)) else [len(x)]
+        if not is_list(x):
+            return []
+        if hasattr(x, 'dtype') and x.dtype != object:
+            return list(x.shape)
+        subs = [_shape(y) for y in x]
+        if len(subs) > 0 and all(s == subs[0] for s in subs):
+            return [len(x)] + subs[0]
+        return [len(x)]
     a = _normalize_backend_array(a)
-    return 0 if is_atom(a) else bknp.asarray([len(a)]) if isinstance(a, str) else bknp.asarray(_a(a).shape)
+    return 0 if is_atom(a) else bknp.asarray(_shape(a))
 
 
 def eval_monad_size(a, backend):
